@@ -151,7 +151,7 @@ def entry_point_love(chk, repo):
     for arrays in (False, True):
         it = Interp(repo, hooks={'call': call_hook, 'branch': branch_hook}, max_depth=12)
         it.array_mode = arrays
-        for lmax in (2, 3):
+        for lmax in ((2, 3, 5) if arrays else (2, 3)):
             out = it.call(mq, f, [], dict(host_mass=M, target_radius=R, target_mass=m, target_gravity=g, target_density=rho, target_moi=X.atom('C', 'pos'), viscosity=X.atom('eta', 'pos'),
                                           shear_modulus=mu, rheology='Maxwell', eccentricity=X.atom('e', 'pos'), orbital_frequency=X.atom('n', 'pos'), max_tidal_order_l=lmax,
                                           eccentricity_truncation_lvl=4))
@@ -159,10 +159,11 @@ def entry_point_love(chk, repo):
             bad = []
             for l in range(2, lmax + 1):
                 got = love.get(l) if isinstance(love, dict) else None
+                got = getattr(got, 'v', got) if type(got).__name__ == 'ArrBox' else got
                 m_l = X.const(Fr(2 * l * l + 4 * l + 3, l)) * mu / (rho * g * R)
                 ref = X.const(Fr(3, 2 * (l - 1))) / (1 + m_l / (J * mu))
                 if not isinstance(got, X.Node) or not d.equal(got, ref):
                     bad.append(f'love_number_by_orderl[{l}] is not 3/(2(l-1)) / (1 + m_l / (J mu))')
             chk.ob('R12.7', f'quick_tidal_dissipation (spin-synchronous, l_max = {lmax}{", array inputs" if arrays else ""}): the reported love_number_by_orderl is the closed form at the one compliance the modes share',
                    not bad, '; '.join(bad), mq.where(f), key=f'R12.7|lmax={lmax}|arrays={arrays}', method='whole-function interpretation (compliance stubbed) + GF(p^2) PIT')
-    chk.floor('R12.7', 4)
+    chk.floor('R12.7', 5)
